@@ -13,7 +13,7 @@ pub static DEF: PropDef = PropDef {
     title: "Decoding is total",
     rule: "Inputs: G-wire tapes (valid control/data encodings with 0-3 structural mutations, control headers around generated AVP records, raw octets), \
 the complete grid {attribute type 0..41 and 3 others} x {payload length 0..40} x {H bit, vendor id} x {2 payload fills} as one-record control bodies, \
-every byte string of length <= 2, and every 16-bit value of each enumerated field (message type, error type, proxy type, attribute type, vendor id) inside a control message. Each input is decoded under all 8 option sets and as a bare AVP list, in both build profiles, in a child process \
+every byte string of length <= 2, and every 16-bit value of each enumerated field (message type, error type, proxy type, attribute type, vendor id) inside a control message. One tape in sixteen is additionally decoded through a reader that declines one bytes() request (the trait allows None), one in a hundred on a thread with a 64 KiB stack. Each input is decoded under all 8 option sets and as a bare AVP list, in both build profiles, in a child process \
 (aborts and hangs are observed by the supervisor). Non-trivial = input of at least 2 octets (past the flags guard); distinct by hash of the input octets.",
     assumptions: &[
         "non-termination is decided by a watchdog (20 s for one case) with re-confirmation, i.e. up to a time bound",
@@ -197,10 +197,94 @@ pub fn check_bytes(b: &[u8], family: &'static str, cx: &mut Cx) -> Res {
     Ok(())
 }
 
+/// decoding through a reader that declines one `bytes` request (the trait allows None): Ok or non-empty Err, no panic
+fn check_flaky(b: &[u8], t: &mut Tape, cx: &mut Cx) -> Res {
+    use crate::mon::{ContractViolation, FlakyReader};
+    let o = all_opts()[t.below(8)];
+    let at = t.below(6) as u64;
+    cx.eval();
+    cx.stage(STAGE_ARMED);
+    let mut declined = false;
+    let r = guard(|| {
+        let mut rd = FlakyReader::new(b, at);
+        let r = decode_via(&mut rd, o);
+        declined = rd.declined();
+        r
+    });
+    let r2 = guard(|| {
+        let mut rd = FlakyReader::new(b, at);
+        decode_avps_via(&mut rd)
+    });
+    cx.stage(STAGE_SETUP);
+    let render = || json!({"input": hex(b), "opts": opts_str(o), "reader": format!("declines bytes() call #{}", at)});
+    for (what, bad) in [("message", matches!(r, Caught::Panic(_))), ("AVP list", matches!(r2, Caught::Panic(_)))] {
+        if bad {
+            let p = match (&r, &r2) {
+                (Caught::Panic(p), _) | (_, Caught::Panic(p)) => p.short(),
+                _ => String::new(),
+            };
+            return fail(format!("{} decode panicked when the reader declined a bytes() request: {}", what, p), render());
+        }
+    }
+    if let Caught::Monitor(p) = &r {
+        if let Some(v) = p.downcast_ref::<ContractViolation>() {
+            return fail(format!("out-of-range {}({}) with {} remaining issued to a reader that had declined a bytes() request", v.method, v.requested, v.remaining), render());
+        }
+    }
+    if let Caught::Ok((Err(e), _)) = &r {
+        if e.is_empty() {
+            return fail("decode returned Err with an empty error list", render());
+        }
+    }
+    if declined {
+        cx.class("a bytes() request was declined by the reader");
+        cx.nontrivial(&(b, at, 11u8));
+    }
+    Ok(())
+}
+
+/// the same decode on a thread with a 64 KiB stack (a stack overflow kills the process: observed by the supervisor)
+fn check_small_stack(b: &[u8], cx: &mut Cx) -> Res {
+    cx.eval();
+    cx.stage(STAGE_ARMED);
+    let owned = b.to_vec();
+    let h = std::thread::Builder::new().stack_size(64 * 1024).spawn(move || {
+        let mut n = 0u32;
+        for o in all_opts() {
+            if let Caught::Panic(_) = crate_decode(&owned, o) {
+                n += 1;
+            }
+        }
+        if let Caught::Panic(_) = crate_decode_avps(&owned) {
+            n += 1;
+        }
+        n
+    });
+    let r = match h {
+        Ok(h) => h.join(),
+        Err(_) => return Ok(()), // could not create the thread: nothing learnt
+    };
+    cx.stage(STAGE_SETUP);
+    match r {
+        Ok(0) => {
+            cx.class("decoded on a thread with a 64 KiB stack");
+            Ok(())
+        }
+        _ => fail("decode panicked on a thread with a 64 KiB stack", json!({"input": hex(b)})),
+    }
+}
+
 fn run_tape(_part: &str, tape: &[u8], cx: &mut Cx) -> Res {
     let mut t = Tape::new(tape);
+    let mode = t.below(100);
     let b = gen_wire(&mut t);
-    check_bytes(&b, "wire", cx)
+    check_bytes(&b, "wire", cx)?;
+    if mode < 6 {
+        check_flaky(&b, &mut t, cx)?;
+    } else if mode == 10 {
+        check_small_stack(&b, cx)?;
+    }
+    Ok(())
 }
 
 /// every 16-bit value in each enumerated field, inside a control message after a valid Message Type
